@@ -3,6 +3,7 @@ package charset
 import (
 	"bytes"
 	"encoding/xml"
+	"io"
 	"strings"
 	"unicode/utf8"
 
@@ -146,6 +147,9 @@ func FromXML(content []byte) string {
 func fromXML(content []byte) string {
 	content = trimLWS(content)
 	dec := xml.NewDecoder(bytes.NewReader(content))
+	// Without a CharsetReader the decoder refuses any declaration whose encoding
+	// is not UTF-8. Only the declaration is read here, so pass the bytes through.
+	dec.CharsetReader = func(_ string, r io.Reader) (io.Reader, error) { return r, nil }
 	rawT, err := dec.RawToken()
 	if err != nil {
 		return ""
